@@ -121,7 +121,7 @@ def solve_const(I, term):
     return None
 
 
-def decode_section(I, L, c0, n):
+def decode_section(I, L, c0, n, end=None):
     """Independent decoder for a compressed vector section on the (symbolic) logical stream: walks the section header and the
     packets by the format rules.  The STRUCTURE (lengths, counts, packet kinds) must be uniquely determined on the path; the
     stream bytes stay symbolic.  Returns (facts [(name, Bool)], streams [[byte terms]], section_length) or raises Inconclusive."""
@@ -137,7 +137,17 @@ def decode_section(I, L, c0, n):
     def le_const(addr, nbytes, what):
         return sum(const_at(addr + U64(b), what) << (8 * b) for b in range(nbytes))
     facts.append(("section id is 1 and reserved bytes are zero", z3.And(*[L(c0 + U64(b)) == z3.BitVecVal(1 if b == 0 else 0, 8) for b in range(8)])))
-    sec_len = le_const(c0 + U64(8), 8, "section length")
+    try:
+        sec_len = le_const(c0 + U64(8), 8, "section length")
+    except Inconclusive:
+        # the length field is not the same on every state of this path: walk up to where the writer left its cursor instead
+        # (when that is determined) and let the field be a symbolic claim
+        walk = solve_const(I, end - c0) if end is not None else None
+        if walk is None or walk < 32 or walk > (1 << 20):
+            raise
+        field = z3.Concat(*[L(c0 + U64(8 + b)) for b in range(7, -1, -1)])
+        facts.append(("section length field = size of the section (header + packets) actually written", field == U64(walk)))
+        sec_len = walk
     facts.append(("section length is a multiple of 4 and covers the header", z3.BoolVal(sec_len % 4 == 0 and sec_len >= 32)))
     data_off = z3.Concat(*[L(c0 + U64(16 + b)) for b in range(7, -1, -1)])
     facts.append(("data offset = physical address of the first packet (outside checksum bytes)", data_off == phys(c0 + U64(32))))
@@ -186,7 +196,7 @@ def pcw_claims(s, I):
     c0 = s.cursor
     L = v["L"]
     i = fresh("sk_i")
-    facts, streams, sec_len = decode_section(I, L, c0, n)
+    facts, streams, sec_len = decode_section(I, L, c0, n, end=v["cursor"])
     out += facts
     for j in range(n):
         nb, fn = stream_bytes(s.proto, s.vals, j)
